@@ -117,7 +117,8 @@ func checkC03(c *Ctx) {
 	}
 	sites := c.searchSites(recFns)
 	c.floor("O1 search-predicate", len(sites), 2)
-	for _, s := range sites {
+	for _, s0 := range sites {
+		s := s0
 		key := c.fnKey(s.fn)
 		c.sawFunc(key)
 		c.callSites++
@@ -136,10 +137,51 @@ func checkC03(c *Ctx) {
 			isFloat = true
 			wantFld, wantK, kind = fVal, kValue, "value"
 		}
+		// The search may live in a same-receiver helper that returns the search result unchanged
+		// (`idx := h.bucketIndex(v)`): the range/predicate rules are decided in the helper, the
+		// increment/guard/index rules in each caller, with the helper call standing for the result.
+		type recSite struct {
+			fn  *ssa.Function
+			res *ssa.Call
+		}
+		recs := []recSite{{s.fn, s.call}}
+		hasInc := false
+		instrsOf(s.fn, func(in ssa.Instruction) {
+			if call, ok := in.(*ssa.Call); ok && incFn != nil && staticCallee(call) == incFn {
+				hasInc = true
+			}
+		})
+		if rets := returnsOf(s.fn); !hasInc && len(rets) == 1 && len(rets[0].Results) == 1 && stripConv(rets[0].Results[0]) == ssa.Value(s.call) {
+			recs = nil
+			for _, caller := range recFns {
+				instrsOf(caller, func(in ssa.Instruction) {
+					call, ok := in.(*ssa.Call)
+					if !ok || staticCallee(call) != s.fn {
+						return
+					}
+					okArgs := len(call.Call.Args) == len(s.fn.Params) && canon(call.Call.Args[0]) == ssa.Value(caller.Params[0])
+					if okArgs {
+						var callerSample *ssa.Parameter
+						for _, p := range caller.Params[1:] {
+							callerSample = p
+						}
+						okArgs = callerSample != nil && canon(call.Call.Args[len(call.Call.Args)-1]) == ssa.Value(callerSample)
+					}
+					if !okArgs {
+						c.bad("O1 search-predicate", c.fnKey(caller)+":helper-args", call.Pos(), "the bucket index helper is not called on the receiver with the recorded sample", c.describe(call))
+						return
+					}
+					recs = append(recs, recSite{caller, call})
+				})
+			}
+			if len(recs) == 0 {
+				c.bad("O2 one-increment", key, s.call.Pos(), "the bucket search result is not used to count a sample")
+			}
+		}
 		// n = len(h.buckets)
 		okN := false
 		if ln, ok := s.n.(*ssa.Call); ok && isBuiltin(ln, "len") {
-			if f, base := loadedField(ln.Call.Args[0]); f == fBuckets && canon(base) == ssa.Value(s.fn.Params[0]) {
+			if f, base := loadedField(canon(ln.Call.Args[0])); f == fBuckets && canon(base) == ssa.Value(s.fn.Params[0]) {
 				okN = true
 			}
 		}
@@ -182,7 +224,7 @@ func checkC03(c *Ctx) {
 					if ld, isLd := x.(*ssa.UnOp); isLd {
 						if fa, isFA := ld.X.(*ssa.FieldAddr); isFA {
 							if ia, isIA := fa.X.(*ssa.IndexAddr); isIA {
-								bf, bbase := loadedField(ia.X)
+								bf, bbase := loadedField(canon(ia.X))
 								if bf == fBuckets && canon(bbase) == ssa.Value(s.fn.Params[0]) {
 									if len(s.closure.Params) == 1 && ia.Index == ssa.Value(s.closure.Params[0]) {
 										okIdx = true
@@ -205,64 +247,68 @@ func checkC03(c *Ctx) {
 		}
 		c.check(predOK, "O1 search-predicate", key, s.call.Pos(), "predicate is h.buckets[i]."+wantFld.Name()+" >= sample", why, c.describe(s.call))
 
-		// Inc sites: counter.Inc on samples[..].counter of the receiver
-		var incs []*ssa.Call
-		instrsOf(s.fn, func(in ssa.Instruction) {
-			call, ok := in.(*ssa.Call)
-			if !ok || incFn == nil || staticCallee(call) != incFn {
-				return
+		for _, rs := range recs {
+			rkey := c.fnKey(rs.fn)
+			c.sawFunc(rkey)
+			// Inc sites: counter.Inc on samples[..].counter of the receiver
+			var incs []*ssa.Call
+			instrsOf(rs.fn, func(in ssa.Instruction) {
+				call, ok := in.(*ssa.Call)
+				if !ok || incFn == nil || staticCallee(call) != incFn {
+					return
+				}
+				incs = append(incs, call)
+			})
+			if len(incs) != 1 {
+				c.bad("O2 one-increment", rkey, rs.res.Pos(), fmt.Sprintf("the record function contains %d counter increments (expected exactly one)", len(incs)))
+				continue
 			}
-			incs = append(incs, call)
-		})
-		if len(incs) != 1 {
-			c.bad("O2 one-increment", key, s.call.Pos(), fmt.Sprintf("the record function contains %d counter increments (expected exactly one)", len(incs)))
-			continue
-		}
-		inc := incs[0]
-		one, isOne := constInt(inc.Call.Args[1])
-		cnt := c.newPathCounter(func(i ssa.Instruction) bool { return i == ssa.Instruction(inc) }, 0).fn(s.fn, 0)
-		c.paths++
-		c.check(isOne && one == 1 && cnt.max == 1, "O2 one-increment", key, inc.Pos(), "one Inc(1) per recorded sample",
-			"the sample is not counted by exactly one Inc(1)", c.describe(inc))
-		// receiver of Inc = load(&samples[idx].counter)
-		var idxV ssa.Value
-		okRecv := false
-		if f, base := loadedField(inc.Call.Args[0]); f == fCounter && fCounter != nil {
-			if ia, isIA := base.(*ssa.IndexAddr); isIA {
-				if sf, sbase := loadedField(ia.X); sf == fSamples && canon(sbase) == ssa.Value(s.fn.Params[0]) {
-					okRecv = true
-					idxV = ia.Index
+			inc := incs[0]
+			one, isOne := constInt(inc.Call.Args[1])
+			cnt := c.newPathCounter(func(i ssa.Instruction) bool { return i == ssa.Instruction(inc) }, 0).fn(rs.fn, 0)
+			c.paths++
+			c.check(isOne && one == 1 && cnt.max == 1, "O2 one-increment", rkey, inc.Pos(), "one Inc(1) per recorded sample",
+				"the sample is not counted by exactly one Inc(1)", c.describe(inc))
+			// receiver of Inc = load(&samples[idx].counter)
+			var idxV ssa.Value
+			okRecv := false
+			if f, base := loadedField(inc.Call.Args[0]); f == fCounter && fCounter != nil {
+				if ia, isIA := base.(*ssa.IndexAddr); isIA {
+					if sf, sbase := loadedField(ia.X); sf == fSamples && canon(sbase) == ssa.Value(rs.fn.Params[0]) {
+						okRecv = true
+						idxV = ia.Index
+					}
 				}
 			}
-		}
-		if !okRecv {
-			c.bad("O2 one-increment", key+":target", inc.Pos(), "the increment does not target h.samples[index].counter of the receiver", c.describe(inc))
-			continue
-		}
-		// O3 type guard
-		guard := guardedByEdge(inc, func(cond ssa.Value) (bool, bool) {
-			op, x, y, ok := cmpOf(cond)
-			if !ok || (op != token.EQL && op != token.NEQ) {
-				return false, false
+			if !okRecv {
+				c.bad("O2 one-increment", rkey+":target", inc.Pos(), "the increment does not target h.samples[index].counter of the receiver", c.describe(inc))
+				continue
 			}
-			if _, isC := x.(*ssa.Const); isC {
-				x, y = y, x
-			}
-			f, base := loadedField(x)
-			if f != fHtype || canon(base) != ssa.Value(s.fn.Params[0]) {
-				return false, false
-			}
-			k, isK := constInt(y)
-			if !isK || k != wantK {
-				return false, false
-			}
-			return true, op == token.EQL
-		})
-		c.check(guard != nil, "O3 type-guard", key, inc.Pos(), "increment dominated by htype == "+kind+"HistogramType",
-			"the increment is not guarded by `h.htype == "+kind+"HistogramType`: a "+kind+" sample is counted by a histogram of the other kind (or the guard tests the wrong constant)", c.describe(inc))
+			// O3 type guard
+			guard := guardedByEdge(inc, func(cond ssa.Value) (bool, bool) {
+				op, x, y, ok := cmpOf(cond)
+				if !ok || (op != token.EQL && op != token.NEQ) {
+					return false, false
+				}
+				if _, isC := x.(*ssa.Const); isC {
+					x, y = y, x
+				}
+				f, base := loadedField(x)
+				if f != fHtype || canon(base) != ssa.Value(rs.fn.Params[0]) {
+					return false, false
+				}
+				k, isK := constInt(y)
+				if !isK || k != wantK {
+					return false, false
+				}
+				return true, op == token.EQL
+			})
+			c.check(guard != nil, "O3 type-guard", rkey, inc.Pos(), "increment dominated by htype == "+kind+"HistogramType",
+				"the increment is not guarded by `h.htype == "+kind+"HistogramType`: a "+kind+" sample is counted by a histogram of the other kind (or the guard tests the wrong constant)", c.describe(inc))
 
-		// O4 index guard
-		c.checkSearchIndex("O4 index-guard", key, s, idxV, fSamples, fBuckets, isFloat)
+			// O4 index guard
+			c.checkSearchIndex("O4 index-guard", rkey, &searchSite{fn: rs.fn, call: rs.res}, idxV, fSamples, fBuckets, isFloat)
+		}
 	}
 
 	// O4b: samples made with len(buckets)
@@ -292,7 +338,15 @@ func (c *Ctx) checkSearchIndex(rule, key string, s *searchSite, idx ssa.Value, f
 		f, base := loadedField(ln.Call.Args[0])
 		return (f == fSamples || f == fBuckets) && canon(base) == recv
 	}
-	inRange := func(cond ssa.Value) (bool, bool) { // "S < len" ; returns (match, onTrue)
+	isLenMinus1 := func(v ssa.Value) bool {
+		bo, isB := stripConv(v).(*ssa.BinOp)
+		if !isB || bo.Op != token.SUB || !isLenOf(bo.X) {
+			return false
+		}
+		k, isK := constInt(bo.Y)
+		return isK && k == 1
+	}
+	inRange := func(cond ssa.Value) (bool, bool) { // "S < len" / "S <= len-1" in any spelling; returns (match, onTrue)
 		op, x, y, ok := cmpOf(cond)
 		if !ok {
 			return false, false
@@ -301,14 +355,24 @@ func (c *Ctx) checkSearchIndex(rule, key string, s *searchSite, idx ssa.Value, f
 			x, y = y, x
 			op = flipCmp(op)
 		}
-		if stripConv(x) != ssa.Value(s.call) || !isLenOf(y) {
+		if stripConv(x) != ssa.Value(s.call) {
 			return false, false
 		}
-		switch op {
-		case token.LSS, token.NEQ:
-			return true, true
-		case token.GEQ, token.EQL:
-			return true, false
+		switch {
+		case isLenOf(y):
+			switch op {
+			case token.LSS, token.NEQ:
+				return true, true
+			case token.GEQ, token.EQL:
+				return true, false
+			}
+		case isLenMinus1(y):
+			switch op {
+			case token.LEQ:
+				return true, true
+			case token.GTR:
+				return true, false
+			}
 		}
 		return false, false
 	}
@@ -530,7 +594,26 @@ func (c *Ctx) checkBoundPairs(rule string, fVal, fDur *types.Var) {
 			why := "the lower bound argument is not " + s.lower + "(B, i)"
 			if lc, isCall := lo.(*ssa.Call); isCall && lowerFn != nil && staticCallee(lc) == lowerFn {
 				why = "the upper bound argument is not B[i]." + s.fld.Name() + " for the same B and i as the lower bound"
-				if f, base := loadedField(up); f == s.fld {
+				f, base := loadedField(up)
+				if fv, isF := up.(*ssa.Field); isF {
+					// `for i, b := range B { ... b.upper ... }`: field of the element copy *(&B[i])
+					f = structFieldOf(fv.X.Type(), fv.Field)
+					base = nil
+					if ld, isLd := stripConv(fv.X).(*ssa.UnOp); isLd && ld.Op == token.MUL {
+						base = ld.X
+					}
+				}
+				if al, isAl := base.(*ssa.Alloc); isAl {
+					// range-value variable kept in a local cell: `*cell = *(&B[i])`
+					if ld, isLd := up.(*ssa.UnOp); isLd {
+						if stores, fromEntry := reachingStores(al, ld); !fromEntry && len(stores) == 1 {
+							if src, isSrc := stripConv(stores[0].Val).(*ssa.UnOp); isSrc && src.Op == token.MUL {
+								base = src.X
+							}
+						}
+					}
+				}
+				if f == s.fld {
 					if ia, isIA := base.(*ssa.IndexAddr); isIA {
 						if accessPath(ia.X) == accessPath(lc.Call.Args[0]) && stripConv(ia.Index) == stripConv(lc.Call.Args[1]) {
 							ok = true
